@@ -115,7 +115,26 @@ class Check:
             d['instances'] += 1
             d['discharged'] += int(o.ok)
         distinct = len({o.key for o in obs})
-        samples = [o.as_dict() for o in obs[:6]] + [o.as_dict() for o in obs if not o.ok][:6]
+        seen_cl, samples = set(), []
+        for o in obs:                      # one sample obligation per clause, then the failing ones
+            if o.clause not in seen_cl:
+                seen_cl.add(o.clause)
+                samples.append(o.as_dict())
+        samples += [o.as_dict() for o in obs if not o.ok][:6]
+        from .interp import STATS
+        from .model import Repo, repo_root
+        analysed = {
+            'repository_root': repo_root(),
+            'functions_interpreted': len(STATS['functions']),
+            'function_list': sorted(STATS['functions'])[:60],
+            'interpreter_runs': STATS['runs'],
+            'syntactic_paths_enumerated': STATS['paths'],
+            'internal_call_events_resolved': STATS['calls_internal'],
+            'external_call_events_modelled': STATS['calls_external'],
+            'call_events_unresolved': STATS['calls_unresolved'],
+            'constructs_with_obligations': sorted({o.construct for o in obs})[:60],
+            'rules_applied': sorted({o.rule for o in obs}),
+        }
         ev = {
             'property_id': self.prop_id,
             'tier': self.tier,
@@ -134,6 +153,7 @@ class Check:
                         'distinct = distinct keys; floors per clause refuse vacuous passes',
                 'samples': samples,
                 'per_clause': per_clause,
+                'analysed': analysed,
                 'known_findings_reported': [o.key for o in listed],
                 'exhaustive': False,
                 **self.stats,
